@@ -9,21 +9,27 @@
 (* times every sequence of at most MaxDepth calls with arguments drawn from the live ids.         *)
 (*                                                                                                *)
 (* Refines:  every step's verdict (Editing!Judge on the impl-shaped step) has its violations in   *)
-(*           Allowed.  "As the code is" (Dev <- DevAsIs) Allowed lists exactly the signatures of  *)
-(*           the known findings; "as repaired" (Dev <- DevRepaired) Allowed = {}.                  *)
+(*           Allowed when the behaviour runs "as the code is" (dev = DevAsIs; Allowed lists       *)
+(*           exactly the signatures of the known findings) and has none "as repaired"             *)
+(*           (dev = DevRepaired).  Both kinds of behaviour are explored in one run (Devs).        *)
 (* StartOk:  the starting documents are sound.                                                    *)
-(* Finish prints complete behaviours as JSON lines for replay into lopdf: all those that contain  *)
-(* a violation in the model and a deterministic sample (EmitMod / EmitPick) of the others.        *)
+(* Finish prints a deterministic sample (EmitMod / C11_PICK) of the complete behaviours as JSON    *)
+(* lines for replay into lopdf; EmitViolations prints a sample (EmitModV) of the behaviours whose   *)
+(* last step violates a clause in the model, up to that step.                                      *)
 EXTENDS EditingSys, Json, IOUtils
 
 CONSTANTS Starts,     \* set of start-document parameter records (see St)
+          Devs,       \* switch records explored (Editing!DevAsIs, Editing!DevRepaired)
           Allowed,    \* violation tags a step may produce
-          Emit, EmitMod
+          Emit,
+          EmitMod,    \* one complete behaviour in EmitMod is printed ...
+          EmitModV    \* ... and one in EmitModV of the behaviours that end in a violating step
 
 VARIABLES start,      \* parameters of the starting document
-          done
+          done,
+          pend        \* simulation only: the call picked, not yet run
 
-vars == <<svars, start, done>>
+vars == <<svars, start, done, pend>>
 
 \* object numbers of the starting documents
 Cat == 1  Root == 2  PgA == 3  C1 == 4  C2 == 5  CArr == 6  Font == 7  ResObj == 8  Annot == 9
@@ -100,6 +106,10 @@ StartDoc(s) ==
         max_id |-> MaxOf(ids),
         bms |-> [i \in 1..s.bm |-> PgA]]
 
+DevBoth   == {DevAsIs, DevRepaired}
+DevCode   == {DevAsIs}
+DevFixed  == {DevRepaired}
+
 BytesQuick    == {<<90>>}
 BytesThorough == {<<90>>, [i \in 1..64 |-> 120]}          \* a long run: the compressible class
 NumsQuick     == {<<1>>, <<2, 1>>}
@@ -107,11 +117,18 @@ NumsThorough  == {<<1>>, <<2>>, <<2, 1>>, <<1, 1>>, <<3>>}
 
 StartsTiny == {St("AB", "dup", "rootref", 2, TRUE, 1)}
 
-\* every Contents shape x every Resources placement on the two-page trees, annotations and image on some
+\* every Contents shape on a nested tree with inherited Resources; own + inherited Resources, annotations, image,
+\* bookmark on a flat tree; three pages under an intermediate node
 StartsQuick ==
     {St("AmB", c, "rootref", 1, FALSE, 0) : c \in {"ref", "arr1", "arr2", "dup", "refarr", "missing"}}
-    \cup {St("AB", "ref", r, 2, TRUE, 1) : r \in {"none", "root", "page", "pageref", "both"}}
-    \cup {St("A", "arr2", "root", 0, TRUE, 0), St("mABC", "refarr", "both", 1, FALSE, 1)}
+    \cup {St("AB", "ref", "both", 2, TRUE, 1), St("mABC", "dup", "pageref", 1, FALSE, 1)}
+
+\* focused families: one aspect varied on a small tree
+StartsContent  == {St("A", c, "root", 0, FALSE, 0) : c \in {"ref", "arr1", "arr2", "dup", "refarr", "missing"}}
+StartsContent2 == {St("AmB", c, "rootref", 1, FALSE, 0) : c \in {"ref", "arr1", "arr2", "dup", "refarr", "missing"}}
+StartsRes      == {St("AmB", "ref", r, 0, FALSE, 0) : r \in {"none", "root", "rootref", "page", "pageref", "both"}}
+StartsObj1     == {St("AB", "dup", "rootref", 2, TRUE, 1)}
+StartsObj      == {St("AB", "dup", "rootref", 2, TRUE, 1), St("A", "arr2", "none", 1, FALSE, 1)}
 
 StartsThorough ==
     {St(t, c, r, 1, FALSE, 0) : t \in {"AB", "AmB"}, c \in {"ref", "arr1", "arr2", "dup", "refarr", "missing"},
@@ -125,12 +142,19 @@ MCNewObjs(d) ==
         u == MaxOf((DOMAIN d.objs \ aux.prot) \cup {0})
     IN {StreamO([F |-> Ref(u)], <<>>, FALSE), ArrO(<<Ref(t), Ref(t)>>)}
 
+OpsContent == {"AddPageContents", "ChangePageContent", "ChangeContentStream", "DeleteObject", "DeletePages", "Compress", "Decompress"}
+OpsRes     == {"GetOrCreateResources", "AddXObject", "AddGraphicsState", "DeleteObject", "DeletePages", "Prune"}
+OpsObj     == {"NewObjectId", "AddObject", "Replace", "DeleteObject", "RemoveAnnot", "Prune", "Renumber", "BuildOutline", "Save", "SaveLoad"}
+
+NoCall == Call("none")
+
 Init ==
     /\ start \in Starts
+    /\ dev \in Devs
     /\ doc = StartDoc(start)
     /\ aux = Aux(doc)
     /\ gh = GhostOf(aux)
-    /\ n = 0 /\ fails = {} /\ hist = <<>> /\ done = FALSE
+    /\ n = 0 /\ fails = {} /\ hist = <<>> /\ done = FALSE /\ pend = NoCall
 
 JsonOfDoc(d) ==
     LET ids == SetToSortSeq(DOMAIN d.objs, <) IN
@@ -142,54 +166,75 @@ HistSum ==
 
 EmitPick == atoi(IOEnv.C11_PICK) % EmitMod
 
-ReplayLine == <<"REPLAY", ToJson([start |-> start, doc |-> JsonOfDoc(StartDoc(start)),
-                                    calls |-> hist, final |-> JsonOfDoc(doc)])>>
+ReplayLine ==
+    LET d0 == StartDoc(start)
+        A0 == Aux(d0)
+    IN <<"REPLAY", ToJson([start |-> start, asis |-> dev.asis, doc |-> JsonOfDoc(d0),
+                           content |-> [i \in 1..Len(A0.pp) |-> <<A0.pp[i], A0.content[A0.pp[i]]>>],
+                           calls |-> hist, final |-> JsonOfDoc(doc)])>>
 
-\* a behaviour ends after MaxDepth calls; a deterministic sample of the complete behaviours is printed
+\* a behaviour ends after MaxDepth calls (or when a reported step left the document unsound); a
+\* deterministic sample of the complete behaviours is printed
 Finish ==
-    /\ ~done /\ n = MaxDepth
+    /\ ~done /\ pend = NoCall /\ (n = MaxDepth \/ ~aux.sound)
     /\ done' = TRUE
     /\ IF Emit /\ HistSum % EmitMod = EmitPick THEN PrintT(ReplayLine) ELSE TRUE
-    /\ UNCHANGED <<svars, start>>
+    /\ UNCHANGED <<svars, start, pend>>
 
 \* ... and every behaviour whose last step violates a clause in the model is printed up to that step
 \* (breadth-first mode evaluates an invariant once per distinct state)
-EmitViolations == (Emit /\ ~done /\ Violations(fails) # {}) => PrintT(ReplayLine)
+EmitViolations == (Emit /\ ~done /\ Violations(fails) # {} /\ HistSum % EmitModV = EmitPick % EmitModV) => PrintT(ReplayLine)
 
-W(A) == ~done /\ A /\ UNCHANGED <<start, done>>
-NewObjectIdS == W(NewObjectId)
-AddObjectS == W(AddObject)
-ReplaceS == W(Replace)
-DeleteObjectS == W(DeleteObject)
-RemoveAnnotS == W(RemoveAnnot)
-PruneS == W(Prune)
-DeletePagesS == W(DeletePages)
-RenumberS == W(Renumber)
-CompressS == W(Compress)
-DecompressS == W(Decompress)
-AddPageContentsS == W(AddPageContents)
-ChangePageContentS == W(ChangePageContent)
-ChangeContentStreamS == W(ChangeContentStream)
-GetOrCreateResourcesS == W(GetOrCreateResources)
-AddXObjectS == W(AddXObject)
-AddGraphicsStateS == W(AddGraphicsState)
-BuildOutlineS == W(BuildOutline)
-SaveS == W(Save)
-SaveLoadS == W(SaveLoad)
+Idle == ~done /\ pend = NoCall
+Keep == UNCHANGED <<start, done, pend>>
+NewObjectIdS          == Idle /\ NewObjectId /\ Keep
+AddObjectS            == Idle /\ AddObject /\ Keep
+ReplaceS              == Idle /\ Replace /\ Keep
+DeleteObjectS         == Idle /\ DeleteObject /\ Keep
+RemoveAnnotS          == Idle /\ RemoveAnnot /\ Keep
+PruneS                == Idle /\ Prune /\ Keep
+DeletePagesS          == Idle /\ DeletePages /\ Keep
+RenumberS             == Idle /\ Renumber /\ Keep
+CompressS             == Idle /\ Compress /\ Keep
+DecompressS           == Idle /\ Decompress /\ Keep
+AddPageContentsS      == Idle /\ AddPageContents /\ Keep
+ChangePageContentS    == Idle /\ ChangePageContent /\ Keep
+ChangeContentStreamS  == Idle /\ ChangeContentStream /\ Keep
+GetOrCreateResourcesS == Idle /\ GetOrCreateResources /\ Keep
+AddXObjectS           == Idle /\ AddXObject /\ Keep
+AddGraphicsStateS     == Idle /\ AddGraphicsState /\ Keep
+BuildOutlineS         == Idle /\ BuildOutline /\ Keep
+SaveS                 == Idle /\ Save /\ Keep
+SaveLoadS             == Idle /\ SaveLoad /\ Keep
 
-Next == NewObjectIdS \/ AddObjectS \/ ReplaceS \/ DeleteObjectS \/ RemoveAnnotS \/ PruneS \/ DeletePagesS \/ RenumberS \/ CompressS \/ DecompressS \/ AddPageContentsS \/ ChangePageContentS \/ ChangeContentStreamS \/ GetOrCreateResourcesS \/ AddXObjectS \/ AddGraphicsStateS \/ BuildOutlineS \/ SaveS \/ SaveLoadS \/ Finish
+Next == NewObjectIdS \/ AddObjectS \/ ReplaceS \/ DeleteObjectS \/ RemoveAnnotS \/ PruneS \/ DeletePagesS \/ RenumberS
+        \/ CompressS \/ DecompressS \/ AddPageContentsS \/ ChangePageContentS \/ ChangeContentStreamS
+        \/ GetOrCreateResourcesS \/ AddXObjectS \/ AddGraphicsStateS \/ BuildOutlineS \/ SaveS \/ SaveLoadS \/ Finish
 
 Spec == Init /\ [][Next]_vars
 
+\* Random simulation (tlc -simulate) takes a call in two cheap moves, so that only the chosen call is
+\* run and judged: Pick chooses an enabled call, Exec runs it.
+Pick ==
+    /\ ~done /\ pend = NoCall
+    /\ \E op \in Ops : \E c \in Cands(op) : Enabled(c) /\ pend' = c
+    /\ UNCHANGED <<svars, start, done>>
+Exec ==
+    /\ pend # NoCall /\ Step(pend) /\ pend' = NoCall
+    /\ UNCHANGED <<start, done>>
+SimNext == Pick \/ Exec \/ Finish
+SimSpec == Init /\ [][SimNext]_vars
+
 \* history is not part of the fingerprint: two call sequences that lead to the same document, ghost
-\* state, depth and last verdict are explored once
-View == <<doc, gh, n, fails, start, done>>      \* aux is a function of doc
+\* state, depth and last verdict are explored once (aux is a function of doc)
+View == <<dev, doc, gh, n, fails, start, done, pend>>
 
 -----------------------------------------------------------------------------
-Refines == Violations(fails) \subseteq Allowed
+\* As the code is, the only violations are the listed findings; as repaired there are none.
+Refines == Violations(fails) \subseteq (IF dev.asis THEN Allowed ELSE {})
 
 StartOk == n = 0 => JudgeState(doc, aux, gh.content) = {} /\ aux.sound
 
-\* the ghost content is what the document shows (re-synchronised by Judge)
+\* aux and the ghost content are what the document shows (content is re-synchronised by Judge)
 GhostSync == aux = Aux(doc) /\ gh.content = aux.content
 =============================================================================
